@@ -39,8 +39,8 @@ def gen(ctx, tag, nh, length, mode, seed, br=1, edepth=2, mut="none", workers=4)
         sys.stderr.write(r.out[-4000:])
         raise ToolError(f"TLC failed on MemTableDml ({tag}): specification-level error")
     cases = tlc_cases(r.out)
-    for c in cases:
-        c["id"] = f"{tag}-{c['seed']}"
+    for i, c in enumerate(cases):
+        c["id"] = f"{tag}-{c['seed']}-{i}"        # several histories share a seed when BR > 1
         c["mode"] = mode
     return cases, r
 
